@@ -123,6 +123,25 @@ fn stacks() -> String {
     t
 }
 
+static POLLERS: std::sync::Mutex<Vec<u64>> = std::sync::Mutex::new(Vec::new());
+
+/// Run a harness polling loop (waiting for a hook counter to move). The thread is registered so
+/// that the supervisor does not mistake the polling itself for "a thread that can make progress".
+pub fn polling<R>(f: impl FnOnce() -> R) -> R {
+    let tid = unsafe_gettid();
+    POLLERS.lock().unwrap_or_else(|e| e.into_inner()).push(tid);
+    let r = f();
+    let mut g = POLLERS.lock().unwrap_or_else(|e| e.into_inner());
+    if let Some(i) = g.iter().position(|t| *t == tid) {
+        g.remove(i);
+    }
+    r
+}
+
+fn is_poller(tid: u64) -> bool {
+    POLLERS.lock().unwrap_or_else(|e| e.into_inner()).contains(&tid)
+}
+
 /// Threads that wake up on their own without doing work for anybody (pure reactors).
 fn is_background_noise(comm: &str) -> bool {
     // async-io's reactor polls with a back-off while somebody sits in its block_on; the harness'
@@ -166,12 +185,13 @@ pub fn supervised<T: Send + 'static>(label: &str, watchdog: Duration, f: impl Fn
             prev_stats = None;
         }
         let stalled = last_change.elapsed();
-        if stalled > Duration::from_secs(3) {
+        let need = if POLLERS.lock().unwrap_or_else(|e| e.into_inner()).is_empty() { 3 } else { 15 };
+        if stalled > Duration::from_secs(need) {
             // two samples at least one second apart: every thread asleep, nobody scheduled meanwhile
             let cur = thread_stats();
             if let Some(prev) = prev_stats.take() {
                 let quiet = cur.iter().all(|(tid, st)| {
-                    is_background_noise(&st.comm) || (matches!(st.state, 'S' | 'D') && prev.get(tid).map_or(false, |p| p.switches == st.switches && p.cpu == st.cpu))
+                    is_background_noise(&st.comm) || is_poller(*tid) || (matches!(st.state, 'S' | 'D') && prev.get(tid).map_or(false, |p| p.switches == st.switches && p.cpu == st.cpu))
                 }) && cur.len() == prev.len();
                 if quiet {
                     let c = counters::snapshot();
